@@ -15,7 +15,7 @@ import genlib as G
 A = "routee-compass-core/src/algorithm/search/"
 OBLIGATIONS = ["run_a_star", "advance_search", "get_last_traversed_edge_id", "tree_key_vertex_id", "terminal_vertex_id",
                "lemma_no_revisit", "lemma_iteration_limit", "lemma_size_limit", "lemma_route_edges_permitted", "lemma_closed_step", "lemma_reachable_is_labelled", "lemma_no_path_means_unreachable",
-               "lemma_path_prefix", "lemma_label_le_path", "lemma_chain_cost_le_label", "lemma_tree_route_least", "lemma_up", "lemma_parents_reach_source", "lemma_entry_is_reachable"]
+               "lemma_path_prefix", "lemma_label_le_path", "lemma_chain_cost_le_label", "lemma_tree_route_least", "lemma_up", "lemma_parents_reach_source", "lemma_entry_is_reachable", "lemma_every_entry_is_reachable"]
 MUST_FAIL = ["vacuity_probe"]
 
 HEAD = """#![allow(unused_imports, unused_variables, dead_code, unused_mut, unused_parens, unused_assignments)]
@@ -641,6 +641,18 @@ pub proof fn lemma_entry_is_reachable(si: &SearchInstance, d: Direction, source:
         assert(idx[j] == i);
         lemma_route_edges_permitted(g, &si.frontier_model, d, t, k);
     }
+}
+
+/// C05, "precisely those reachable", the second direction in one statement: EVERY entry of a returned tree is reached from the origin by a path of permitted incident edges
+pub proof fn lemma_every_entry_is_reachable(si: &SearchInstance, d: Direction, source: VertexId, t: Map<VertexId, SearchTreeBranch>, labels: Map<VertexId, Cost>, k: VertexId)
+    requires tree_wf(&si.directed_graph, &si.frontier_model, d, t), dom_ok(source, t, labels), pot_ok(source, t, labels), inc_ok(&si.directed_graph, d, t),
+             edge_local(&si.frontier_model), t.dom().finite(), t.contains_key(k)
+    ensures exists|path: Seq<VertexId>, idx: Seq<int>| #[trigger] permitted_path(si, d, path, idx) && path[0] == source && path.last() == k
+{
+    lemma_parents_reach_source(source, t, labels, k);
+    let c = choose|c: Seq<VertexId>| #[trigger] parent_chain(t, c) && c[0] == k && c.last() == source;
+    lemma_entry_is_reachable(si, d, source, t, labels, c);
+    assert(permitted_path(si, d, chain_path(c), chain_idx(&si.directed_graph, d, t, c)));
 }
 """
 
